@@ -334,3 +334,19 @@ func (Guard) emit(a *Asm) {
 type Raw struct{ Code []byte }
 
 func (s Raw) emit(a *Asm) { a.code = append(a.code, s.Code...) }
+
+// IfCalldataSize runs Then and stops when the frame was called with exactly N bytes of calldata;
+// otherwise execution continues with the steps after it.
+type IfCalldataSize struct {
+	N    uint64
+	Then []Step
+}
+
+func (s IfCalldataSize) emit(a *Asm) {
+	skip := a.NewLabel()
+	a.PushU(s.N).Op(vm.CALLDATASIZE, vm.EQ, vm.ISZERO).PushLabel(skip).Op(vm.JUMPI)
+	for _, t := range s.Then {
+		t.emit(a)
+	}
+	a.Op(vm.STOP).Label(skip)
+}
